@@ -2,7 +2,7 @@
 //@ props C02
 //@@ verus-args --rlimit 40
 //@@ depends partitions
-//@@ fnprops C04 lemma_done_stable canary_morphism_contract
+//@@ fnprops C04 lemma_done_stable canary_morphism_contract lemma_track_step lemma_img_rng lemma_conn_cong lemma_conn_homog lemma_conn_base lemma_pop lemma_skip lemma_unite_step lemma_queue_push lemma_ci_pop lemma_good_images lemma_ci_push lemma_ci_none lemma_fold_result lemma_walk_rng lemma_img_involution lemma_pull_back lemma_minimal_iff_only_trivial canary_is_minimal_contract canary_fold_contract canary_connected_is_satisfiable
 //@@ fnprops C01 canary_from_str_contract
 //@@ fnprops C05 canary_cover_contract lemma_fibres lemma_sheet lemma_compose lemma_bop lemma_xor1 lemma_xor1_inj
 #![feature(panic_internals)]
